@@ -697,3 +697,46 @@ Lemma reader_accept_no_allowlist : forall a_m d_set d_m, reader_accept false a_m
 Proof. intros [] [] []; reflexivity. Qed.
 Lemma reader_accept_no_denylist : forall a_set a_m d_m, reader_accept a_set a_m false d_m = (negb a_set || a_m).
 Proof. intros [] [] []; reflexivity. Qed.
+
+(* ------------------------------------------------------------------------------------------ *)
+(* C06: allocation follows the bytes consumed; the clamp of eb5a1a8 did not                    *)
+(* ------------------------------------------------------------------------------------------ *)
+
+(* What decoding one member hands to make is at most the number of bytes it consumed (and at most the bytes left when it
+   fails): an announced count or length buys nothing. *)
+Theorem member_alloc_le_consumed : forall vv b,
+  match decode_member true vv b with
+  | DOk _ r al => 0 <= sumz al <= blen b - blen r
+  | DErr al => 0 <= sumz al <= blen b
+  | DCrash _ => False
+  end.
+Proof.
+  intros vv b. pose proof (safe_decode_member vv b) as S. unfold safe_at in S.
+  destruct (decode_member true vv b); auto; lia.
+Qed.
+
+(* The intermediate repair (eb5a1a8) clamped the map size hint by what the remaining bytes could hold.  That is linear in
+   the message and paid for by nothing: a topic count of 2^31-1 made the decoder allocate 48 nominal bytes (about 76
+   measured) per 6 bytes that follow, before reading a single topic ... *)
+Lemma make_topics_clamped_linear : forall b,
+  blen b / 6 <= 2147483647 -> make_topics_clamped 2147483647 b = DOk tt b [48 * (blen b / 6)].
+Proof.
+  intros b H. unfold make_topics_clamped, map_entry_bytes. cbn [Z.ltb Z.compare].
+  pose proof (blen_nonneg b). pose proof (Z.div_pos (blen b) 6).
+  rewrite Z.min_r by lia. rewrite Z.max_r by lia. reflexivity.
+Qed.
+
+(* ... e.g. an assignment that announces 2^31-1 topics, whose first topic name has the impossible length -2, followed by
+   600 zero bytes: nothing is decoded, 4800 bytes of map are asked for 606 bytes of input (on the real code: 128 KiB of
+   such a value allocated 1.58 MB, 1 MB allocated 12.6 MB, with no request produced). *)
+Theorem assignment_hint_clamped_refuted :
+  exists b al, decode_assignment_clamped b = DErr al /\ blen b = 606 /\ sumz al = 4800.
+Proof.
+  exists ([127; 255; 255; 255; 255; 254] ++ repeat 0 600), [4800].
+  split; [vm_compute; reflexivity|]. split; vm_compute; reflexivity.
+Qed.
+
+(* the same input on the code as it is now: nothing is allocated *)
+Example assignment_no_hint_example :
+  decode_assignment true ([127; 255; 255; 255; 255; 254] ++ repeat 0 600) = DErr [].
+Proof. vm_compute. reflexivity. Qed.
